@@ -320,10 +320,13 @@ impl Node {
         for item in self.iter_children() {
             if let Some(node) = item.as_node() {
                 if let Some(include) = typed::Include::cast(item) {
-                    collect.push(IncludeStatement {
-                        stmt: include,
-                        scope: self.kind,
-                    });
+                    // a statement without a path cannot be resolved; the parser has reported it
+                    if include.has_path() {
+                        collect.push(IncludeStatement {
+                            stmt: include,
+                            scope: self.kind,
+                        });
+                    }
                     if collect.len() == num {
                         return;
                     }
